@@ -1,9 +1,17 @@
 (* C10 - how the compiler chooses to implement an expression is unobservable. Property theorems only (proofs in proofs/VMStepProofs.v, PoolProofs.v, OpsProofs.v): the fused variable-op-constant instructions are step-equivalent to the generic sequence for every machine state; fused selection keeps the source order of the operands; the constant pool is stable under additions. *)
 From NL.Model Require Import VM.
 From NL.Spec Require Import ArithSpec.
-From NL.Proofs Require OpsProofs PoolProofs VMStepProofs VMIndexProofs.
+From NL.Proofs Require OpsProofs PoolProofs VMStepProofs VMIndexProofs CompileCorrectI.
 Import VMStepProofs PoolProofs.
 Open Scope Z_scope.
+
+(* whichever side the literal stands on and whether the fused or the generic instruction is chosen, the machine applies the operator to (left, right) in SOURCE order: stated for all 11 fused operators and every value *)
+Theorem fused_unobservable : forall (orc : oracle) (l r : expr) (o : operator) (name : text) (v : Z) (o' : operator) (h : heap) (a : val) (m : string) (m' : opcode) (mf : string), fused_candidate l r o = Some (name, v, o') -> Fragment.lit_ok v = true -> Sem.method_of o = Some m -> assoc operator_eqb o' fused_table = Some m' -> assoc opcode_eqb m' fused_dispatch = Some mf -> Fragment.scalar a = true \/ (exists ip n : Z, a = VFun ip n) -> binop orc mf h a (VInt v) = (let (x, y) := match l with | EIdent _ => (a, VInt v) | _ => (VInt v, a) end in binop orc m h x y).
+Proof. exact CompileCorrectI.fused_unobservable. Qed.
+
+(* whole programs with functions (where locals, hence fused instructions, occur): the compiled program computes what the source denotes - so global vs local, literal vs variable, left vs right are unobservable on fragment F3 *)
+Theorem compile_correct_F3 : forall (orc : oracle) (p : block), Fragment3.in_F3 p = true -> Fragment.ends_expr p = true -> forall bc : bytecode, compile p = Ok bc -> forall fuel : nat, (Fragment3.size3_b p <= fuel)%nat -> Sem.sem_program orc fuel p <> Sem.SemFuel -> (forall out : text, Sem.sem_program orc fuel p <> Sem.SemError EArgumentError out) -> (exists budget : nat, Fragment3.obs_eq3 (run_program orc bc budget) (Sem.sem_program orc fuel p)) \/ Fragment3.hits_excluded orc bc.
+Proof. exact CompileCorrectI.compile_correct_F3. Qed.
 
 (* one fused instruction XLocalConst l c = the three generic instructions GetLocal l; Const c; X - same stack, heap, output, error, fault - for all eleven opcodes and EVERY machine state (constant not a string: the compiler fuses integer literals only) *)
 Theorem fused_step_equiv : forall (orc : oracle) (prog prog' : program) (o : operator) (fo go : opcode) (s : vm) (ip' l_lo l_hi c_lo c_hi : Z) (r r' : list Z), assoc operator_eqb o fused_table = Some fo -> assoc operator_eqb o compile_operator_table = Some go -> VMStepProofs.code_at prog (v_ip s) (byte_of_opcode fo :: l_lo :: l_hi :: c_lo :: c_hi :: r) -> VMStepProofs.code_at prog' ip' (byte_of_opcode OGetLocal :: l_lo :: l_hi :: byte_of_opcode OConst :: c_lo :: c_hi :: byte_of_opcode go :: r') -> p_consts prog' = p_consts prog -> (forall loc : positive, get_const prog (c_lo + 256 * c_hi) <> Ok (VStr loc)) -> step orc prog s = (do x <- VMStepProofs.nsteps orc prog' 3 (upd_ip s ip'); Ok (VMStepProofs.set_ip_res (v_ip s + 5) x)) /\ (forall s3 : vm, VMStepProofs.nsteps orc prog' 3 (upd_ip s ip') = Ok (Continue s3) -> v_ip s3 = ip' + 7) /\ (forall (v : val) (s3 : vm), VMStepProofs.nsteps orc prog' 3 (upd_ip s ip') <> Ok (Halted v s3)).
@@ -54,6 +62,8 @@ Theorem const_string_copied : forall (orc : oracle) (prog : program) (s : vm) (l
 Proof. exact VMIndexProofs.const_string_copied. Qed.
 
 
+Print Assumptions fused_unobservable.
+Print Assumptions compile_correct_F3.
 Print Assumptions fused_step_equiv.
 Print Assumptions fused_generic3.
 Print Assumptions generic3_steps.
